@@ -247,6 +247,26 @@ def str_method(I, s, name):
     }
     if name in table:
         return SBuiltin("str." + name, table[name])
+    if name in ("partition", "rpartition", "rstrip", "lstrip", "rfind", "count", "index", "rindex", "splitlines", "rsplit", "isalpha", "isalnum", "isspace", "islower", "isupper", "capitalize", "swapcase", "casefold", "center", "ljust", "rjust", "zfill", "removeprefix", "removesuffix", "encode", "expandtabs", "istitle", "isnumeric", "isdecimal", "isidentifier", "isascii", "isprintable"):
+        # pure str methods on literal text: the real method (symbolic text: out of subset)
+        def impl(I, args, kw, fn=getattr(str, name)):
+            if s.py is None:
+                if s.opaque:
+                    return OPAQUE
+                raise OutOfSubset("str.%s on symbolic string" % name)
+            try:
+                r = fn(s.py, *[to_py(a) for a in args], **{k: to_py(v) for k, v in kw.items()})
+            except OutOfSubset:
+                raise
+            except Exception as e:
+                I.raise_(type(e).__name__, str(e))
+            if isinstance(r, list):
+                return SRef(I.P.alloc(HList([mk(x) for x in r])))
+            if isinstance(r, bytes):
+                raise OutOfSubset("bytes")
+            return mk(r)
+
+        return SBuiltin("str." + name, impl)
     return None
 
 
@@ -1266,6 +1286,7 @@ EXTERNALS = {
     "numpy.ndarray": SType("numpy.ndarray"),
     "numpy.number": SType("numpy.number"),
     "numpy.float64": SType("numpy.float64"),
+    "numpy.float32": SType("numpy.float32"),
     "io.StringIO": SType("StringIO"),
     "traceback.print_stack": lambda I, a, k: SNone,
     "StringIO.getvalue": lambda I, a, k: OPAQUE,
